@@ -26,12 +26,18 @@ Theorem C19_split_invariant : forall fx tree ds,
   Permutation (flat_map defs_of (filter (selected fx) tree)) ds ->
   Permutation (type_map (loaded_defs fx tree)) (type_map ds) /\
   forall n, assoc_get n (type_map (loaded_defs fx tree)) = assoc_get n (type_map ds).
-Proof.
-  intros fx tree ds Hn He Hp. pose proof (split_permutation fx tree ds Hp) as H. split.
-  - apply type_map_perm_noext; assumption.
-  - intro n. apply type_map_lookup_eq_noext; assumption.
-Qed.
+Proof. exact split_invariant. Qed.
 Print Assumptions C19_split_invariant.
+
+(* ... and the input classes the generator derives from it are the same classes (same fields, same
+   required flags, same defaults), listed in another order *)
+Theorem C19_split_same_input_classes : forall fx gx tree ds,
+  NoDup (type_names ds) -> has_ext ds = false ->
+  Permutation (flat_map defs_of (filter (selected fx) tree)) ds ->
+  Permutation (gen_inputs gx (inputs_of (type_map (loaded_defs fx tree))))
+              (gen_inputs gx (inputs_of (type_map ds))).
+Proof. exact split_same_input_classes. Qed.
+Print Assumptions C19_split_same_input_classes.
 
 (* with extensions: same types, same kind and header, members equal up to the order in which the
    extensions contribute them *)
@@ -39,9 +45,7 @@ Theorem C19_split_invariant_ext : forall fx tree ds n,
   NoDup (type_names ds) ->
   Permutation (flat_map defs_of (filter (selected fx) tree)) ds ->
   lookup_equiv (assoc_get n (type_map (loaded_defs fx tree))) (assoc_get n (type_map ds)).
-Proof.
-  intros fx tree ds n Hn Hp. apply type_map_lookup_equiv; [exact Hn | apply split_permutation; exact Hp].
-Qed.
+Proof. exact split_invariant_ext. Qed.
 Print Assumptions C19_split_invariant_ext.
 
 (* the order in which the file system lists a directory is irrelevant: same text, byte for byte *)
@@ -54,7 +58,7 @@ Print Assumptions C19_listing_order_irrelevant.
 Theorem C19_unselected_ignored : forall fx tree junk,
   forallb (fun e => negb (selected fx e)) junk = true ->
   load_dir fx (tree ++ junk) = load_dir fx tree.
-Proof. intros fx tree junk H. unfold load_dir. rewrite (unselected_ignored fx tree junk H). reflexivity. Qed.
+Proof. exact load_unselected_ignored. Qed.
 Print Assumptions C19_unselected_ignored.
 
 (* loading succeeds iff every selected entry is a readable file; the text is the sorted join *)
@@ -83,9 +87,6 @@ Theorem C19_extension_selected : forall stem ext, stem <> [] -> ext <> [] ->
 Proof. exact suffix_of_ext. Qed.
 
 (* full statement for loading: a tree whose FILES are all fine loads.  False of /repo: *)
-Definition files_readable (fx : bool) (tree : list entry) : bool :=
-  forallb (fun e => e_isdir e || negb (selected fx e) || readable e) tree.
-Definition suffixed_dir (tree : list entry) : bool := existsb (fun e => e_isdir e && selected false e) tree.
 
 Definition C19_split_loads_full : Prop := forall tree,
   files_readable false tree = true -> exists t, load_dir false tree = inr t.
@@ -104,34 +105,15 @@ Proof.
 Qed.
 Print Assumptions C19_split_refuted_dir.
 
-Lemma all_readable_from_files fx tree :
-  files_readable fx tree = true -> (fx = true \/ suffixed_dir tree = false) -> all_readable fx tree = true.
-Proof.
-  unfold files_readable, all_readable, suffixed_dir. intros H G.
-  induction tree as [|e t IH]; simpl in *; [reflexivity|].
-  apply andb_true_iff in H as [H1 H2].
-  assert (G' : fx = true \/ existsb (fun e => e_isdir e && selected false e) t = false).
-  { destruct G as [G|G]; [left; exact G|]. apply orb_false_iff in G as [_ G]. right. exact G. }
-  specialize (IH H2 G').
-  destruct (selected fx e) eqn:S; simpl; [|exact IH]. rewrite IH, andb_true_r.
-  destruct (e_isdir e) eqn:D; simpl in *.
-  - exfalso. destruct G as [G|G].
-    + subst fx. unfold selected in S. rewrite D in S. simpl in S. discriminate.
-    + apply orb_false_iff in G as [G _]. destruct fx.
-      * unfold selected in S. rewrite D in S. simpl in S. discriminate.
-      * rewrite S in G. discriminate.
-  - exact H1.
-Qed.
-
 (* proved with the defect class as guard, and unguarded for the patched walk *)
 Theorem C19_split_loads_partial : forall tree,
   files_readable false tree = true -> suffixed_dir tree = false -> exists t, load_dir false tree = inr t.
-Proof. intros tree H G. apply load_ok_iff. apply all_readable_from_files; auto. Qed.
+Proof. exact split_loads_partial. Qed.
 Print Assumptions C19_split_loads_partial.
 
 Theorem C19_split_loads_fixed : forall tree,
   files_readable true tree = true -> exists t, load_dir true tree = inr t.
-Proof. intros tree H. apply load_ok_iff. apply all_readable_from_files; auto. Qed.
+Proof. exact split_loads_fixed. Qed.
 
 (* ===================== B. the introspection request ===================== *)
 Theorem C19_headers_resolved : forall en hs xs,
@@ -269,7 +251,7 @@ Print Assumptions C19_introspection_inputs_partial.
 Theorem C19_introspection_inputs_partial_nodefaults : forall s,
   wf_sdl s = true -> no_deprecated s = true -> no_defaults s = true ->
   gen_inputs false (via_introspection s) = gen_inputs false s.
-Proof. intros s W D N. apply introspection_inputs_partial; auto. apply no_defaults_harmless. exact N. Qed.
+Proof. exact introspection_inputs_partial_nodefaults. Qed.
 
 (* the guard is exact, field by field: the generated field differs iff it has a default other than
    null-on-nullable *)
